@@ -293,12 +293,59 @@ def clause_ttl(prog, rep, sites):
         rep.check(ok, "ttl-prune-at-build", "retention-field", "retention_count is the constructor argument", "retention_count is not set from the constructor argument", f.loc())
 
 
+def clause_list_oldest_first(prog, rep, sites, rule="prune-after-push"):
+    """after a restart the queue is rebuilt from list_group_snapshots and the retention loop pops its *front*: the entries it keeps are
+    the most recent ones only if the listing is oldest-first by creation time on both backends (ordering by name puts epoch 10 before
+    epoch 9: the un-padded decimal epoch is part of the name)"""
+    n = 0
+    for f in prog.find(adt="MdkSqliteStorage", name="list_group_snapshots", trait="MdkStorageProvider"):
+        ext = set(prog.extent(f)) | {f.path}
+        for s_ in sites:
+            if s_.fn.path in ext and s_.stmt.kind == "SELECT" and s_.stmt.table == "group_state_snapshots":
+                n += 1
+                ob = [(c.split(".")[-1], d) for c, d in s_.stmt.order_by]
+                rep.check(ob[:1] == [("created_at", "ASC")], rule, "list-oldest-first/sqlite",
+                          "the stored snapshots are listed by created_at ascending", "list_group_snapshots orders by %s, not by created_at ascending: the hydrated "
+                          "queue is not oldest-first and the retention loop releases the wrong snapshots after a restart" % (ob or "nothing"), s_.loc())
+    for f in prog.find(adt="MdkMemoryStorage", name="list_group_snapshots", trait="MdkStorageProvider"):
+        fam = P.family(prog, f)
+        sorts = [c for g in fam for c in g.live_calls() if c.name in ("sort_by_key", "sort_by", "sort_unstable_by_key", "sort_unstable_by", "sort_by_cached_key")]
+        n += 1
+        ok = False
+        for c in sorts:
+            for a in c.args[1:]:
+                cl = (a.get("c") or {}).get("closure") if isinstance(a, dict) else None
+                g = prog.fns.get(cl) if cl else None
+                if g is None and "p" in a:
+                    for bb, kind, x in c.fn.defs().get(a["p"][0], []):
+                        if kind == "stmt" and x.get("k") == "closure":
+                            g = prog.fns.get(x.get("closure"))
+                if g is None:
+                    continue
+                # the key closure reads tuple position 1 (created_at) of the (name, created_at) pair, or a field named created_at
+                reads = set()
+                for bb, st in g.stmts():
+                    for o in st.get("o", []):
+                        if "p" in o:
+                            reads |= set(e for e in o["p"][1:] if isinstance(e, str) and e.startswith("."))
+                for x in g.live_calls():
+                    for o in x.args:
+                        if "p" in o:
+                            reads |= set(e for e in o["p"][1:] if isinstance(e, str) and e.startswith("."))
+                if (".1" in reads or ".created_at" in reads) and ".0" not in reads and ".snapshot_name" not in reads:
+                    ok = True
+        rep.check(ok, rule, "list-oldest-first/memory", "the memory backend sorts the listing by created_at",
+                  "the memory backend's list_group_snapshots is not sorted by created_at (oldest first)", f.loc())
+    rep.floor(rule, "list_group_snapshots implementations", n, 2)
+
+
 def run(ctx, rep):
     prog = ctx.prog()
     sites = sqlmod.collect(prog)
     rep.fns_analysed = len(mgr_fns(prog))
     rep.clause("C20.1 storage snapshots are created only by EpochSnapshotManager")
     rep.clause("C20.2 every queue push is followed on every path, under the same guard, by the `len > retention_count` loop that pops the oldest entry and releases it in storage")
+    rep.clause("C20.2b the listing the queue is rebuilt from after a restart is oldest-first by creation time on both backends")
     rep.clause("C20.3 a rollback splits off and releases the snapshots taken after the target, only after the storage rollback succeeded")
     rep.clause("C20.4 MdkBuilder::build prunes snapshots older than now - snapshot_ttl_seconds on every path when the backend is persistent; retention bound from config; both backends prune by created_at < t")
     rep.not_decided = "counts over real histories; snapshots orphaned by a failed merge after a successful snapshot (visible structurally, reported as context)"
@@ -307,3 +354,4 @@ def run(ctx, rep):
     clause_rollback_releases(prog, rep)
     clause_ttl(prog, rep, sites)
     clause_age_preserved(prog, rep, sites)
+    clause_list_oldest_first(prog, rep, sites)
